@@ -1,5 +1,6 @@
 import GqlVerif.Base.Json
 import GqlVerif.Plan.Sched
+import GqlVerif.Plan.Skip
 namespace GqlVerif.Driver
 open GqlVerif GqlVerif.Sched
 
@@ -32,5 +33,12 @@ def c08validate (args : Json) : Json :=
 def c08legacy (args : Json) : Json :=
   let fs := (depsOfJson (args.getD "fetches")).map fun p => (⟨p.1, p.2⟩ : Fetch)
   .obj [("waves", .arr ((legacyWaves fs).map fun w => .arr (w.map Json.ofNat)))]
+
+/-- `c08.skip {order:[[id,[dep…]]…] (earliest first), fail:[id…]}` → `{issued:[…], errored:[…]}` (Plan.Skip) -/
+def c08skip (args : Json) : Json :=
+  let s := ((depsOfJson (args.getD "order")).map fun p => (⟨p.1, p.2⟩ : GqlVerif.Plan.Skip.F)).reverse
+  let fail := (args.arrD "fail").map fun k => (k.asNat?).getD 0
+  .obj [("issued", .arr ((GqlVerif.Plan.Skip.issued fail s).map Json.ofNat)),
+        ("errored", .arr ((GqlVerif.Plan.Skip.errored fail s).map Json.ofNat))]
 
 end GqlVerif.Driver
